@@ -164,3 +164,14 @@ CHECKS["C18"] = {
     "units": [{"name": "c18", "pkg": "c18", "run": "^Test", "shards": 8, "fuzz": [{"name": "FuzzDecode", "seconds": 90}]}],
     "expect_checks": ["c18.roundtrip", "c18.decode", "c18.huffman"],
 }
+
+CHECKS["C19"] = {
+    "level": "exploration",
+    "technique": "property-based testing (rapid) + native go fuzzing of http2.Framer: (1) generated sequences of Write* calls over boundary parameters -> bytes compared with an independent RFC 7540 serialiser and read back through ReadFrame against an independent parser; (2) byte streams from a frame grammar with injected defects, raw bytes, truncation and drawn read limits -> accept/reject, parsed fields and error codes compared with the reference; (3) header blocks cut into HEADERS+CONTINUATION chains read back with ReadMetaHeaders; (4) illegal Write* parameters are refused without AllowIllegalWrites",
+    "rule": "read: case = 1..5 frames (all ten types and unknown types; wrong fixed lengths, stream 0 where forbidden and vice versa, pad >= length, zero increments, reserved bit set, HEADERS/CONTINUATION chains incl. wrong stream, frames above the limit, truncation) + read limit; non-trivial = contains a malformed frame or one above the limit. write: case = 1..8 Write* calls; non-trivial = a padded or priority-carrying frame or a CONTINUATION chain. Distinct by hash of the bytes/script.",
+    "level_text": "Generated-input search against an independent frame codec (harness/ref/frameref): no panic, never a frame above the read limit, every malformed frame rejected with a ConnectionError/StreamError whose code is in the set RFC 7540 assigns (escalation to a connection error admitted), every legal frame accepted with identical fields, written bytes identical to the RFC serialisation.",
+    "level_note": "Trusted: harness/ref/frameref (about 300 lines). PUSH_PROMISE chains (PUSH_PROMISE without END_HEADERS followed by CONTINUATION) are generated but not judged: the reader tracks HEADERS chains only, and the statement speaks of HEADERS/CONTINUATION interleavings.",
+    "assumptions": ["where several defects coincide in one frame any of their codes is admitted"],
+    "units": [{"name": "c19", "pkg": "c19", "run": "^Test", "shards": 8, "fuzz": [{"name": "FuzzRead", "seconds": 90}]}],
+    "expect_checks": ["c19.read", "c19.write", "c19.meta-headers", "c19.illegal-writes"],
+}
